@@ -85,7 +85,7 @@ impl ParseInfo {
     fn add_palette(&mut self, palette: palette::ColorPalette, new_format: bool) {
         match self.palette.as_mut().and_then(Arc::get_mut) {
             Some(current) if self.palette_is_new_format == new_format => {
-                current.entries.extend(palette.entries)
+                current.extend(palette)
             }
             Some(_) if !new_format => {}
             _ => {
